@@ -16,13 +16,18 @@ def obl_rule(rid, descr, scope, floor, select=lambda s: True):
     d = OBL.run_scope(facts_dir, scope)
     vet = OBL.load_vetted(os.path.join(HERE, "tables", "vetted.jsonl"))
     r = RuleResult(rid, descr, floor=floor)
-    n_ok = n_vet = 0
+    n_ok = n_vet = n_int = 0
+    vet_c = {v.get("ckey") for v in vet.values() if v.get("ckey")}
     for s in d["sites"]:
         if not select(s): continue
         r.sites += 1
         if s["ok"]: n_ok += 1; continue
-        if s["key"] in vet: n_vet += 1; continue
-        r.bad(s["key"], FakeSite(s["file"], s["line"]), f"undischarged obligation [{s['kind']}] {s['descr'][:140]}")
-    r.samples.append(f"obligations {r.sites}: discharged by the engine {n_ok}, vetted {n_vet}, open {len(r.violations)}; fixpoint {d['wall_s']} s")
-    r.counts = dict(obligations=r.sites, discharged=n_ok, vetted=n_vet)
+        if s["key"] in vet or s.get("ckey") in vet_c: n_vet += 1; continue
+        if not s.get("tainted", True):
+            # not input-dependent: an invariant of the library's own state (map membership, own counters, loop indices over own containers).
+            # C06/C07 quantify over the bytes handed in; such operations are counted as "not decided" instead of reported.
+            n_int += 1; continue
+        r.bad(s.get("ckey") or s["key"], FakeSite(s["file"], s["line"]), f"undischarged input-dependent obligation [{s['kind']}] {s['descr'][:140]} (operands: {s['key'].split('|', 2)[-1][:120]})")
+    r.samples.append(f"obligations {r.sites}: discharged by the engine {n_ok}, vetted {n_vet}, internal (not input-dependent, not decided) {n_int}, open {len(r.violations)}; fixpoint {d['wall_s']} s")
+    r.counts = dict(obligations=r.sites, discharged=n_ok, vetted=n_vet, internal=n_int)
     return r, d
